@@ -99,6 +99,28 @@ def run(ctx, scratch):
                     s2, o2 = cases.permute_case(spec, opts, p)
                     s2 = _as_indexed(s2, _k)
                     _one(ctx, impl, name, spec, opts, s2, o2, p, 'dense_%d' % n)
+        # core numbers on medium sparse graphs with many degree ties, many numberings each: the heap of compute_core is laid
+        # out by node number, so a tie-handling slip shows only for SOME numberings of SOME graphs (seed C02_4: 21 of 301
+        # numberings of one 8-node graph, about 1 % of sparse graphs on 20-40 nodes)
+        if 'get_core_decomposition' in names:
+            witness = [[2, 5, 6, 7], [6], [0, 4, 6], [4, 7], [2, 3, 5], [0, 4, 6, 7], [0, 1, 2, 5], [0, 3, 5]]
+            med = [(8, sorted({(i, j) for i, row in enumerate(witness) for j in row}), 40 if quick else 300)]
+            for _ in range(120 if quick else 1200):
+                n = rng.randint(12, 40)
+                want = int(n * rng.choice([1.2, 1.5, 2.0, 2.5, 3.0]))
+                E = set()
+                while len(E) < want:
+                    i, j = rng.randrange(n), rng.randrange(n)
+                    if i != j:
+                        E.add((min(i, j), max(i, j)))
+                med.append((n, gen.sym(sorted(E)), 4))
+            for (n, S, nperm) in med:
+                spec = dict(shape=[n, n], coo=[[i, j, 1] for (i, j) in S], dtype='int', fmt='csr')
+                opts = cases.make_opts(rng, desc['get_core_decomposition'], n, n, False)
+                for _k in range(nperm):
+                    p = gen.random_perm(rng, n)
+                    s2, o2 = cases.permute_case(spec, opts, p)
+                    _one(ctx, impl, 'get_core_decomposition', spec, opts, s2, o2, p, 'core_medium_%d' % (8 if n == 8 else 40))
         # Weisfeiler-Lehman: colouring = colour refinement; never "non-isomorphic" for a renumbered copy
         for k in range(150 if quick else 1500):
             if k < 60:
